@@ -6,7 +6,9 @@
    one structural mutation applied at one position.  Mutations are named; Class says which conjunct of validity a
    mutation breaks, and Verdict what the reader must do.  A few mutations leave the data decodable (an unknown extra
    tree entry, a second clock entry, an unknown JSON field, an empty non-root pack): for those either outcome is
-   admissible as long as nothing crashes, an "invalid" report leaves local data untouched and an accepted entity reads
+   admissible as long as nothing crashes (the same goes for the odd_* mutations: operations of impeccable form that no honest client
+   writes - a label added twice and removed in the same change, a removal of a label never added, an edit aiming at a title change or
+   at nothing, a status set to what it is, times before the creation or below zero, a very long comment), an "invalid" report leaves local data untouched and an accepted entity reads
    back and validates. *)
 EXTENDS Integers, FiniteSets, Sequences, TLC, Json, SequencesExt
 
@@ -26,6 +28,10 @@ BugMutations ==
     op_missing_type |-> "op", op_bad_title |-> "op-valid", op_control_chars |-> "op-valid", op_short_nonce |-> "op-valid",
     op_no_nonce |-> "op-valid", edit_target_short |-> "op-valid", edit_target_empty |-> "op-valid", edit_target_long |-> "op-valid",
     edit_target_badchars |-> "op-valid", meta_target_short |-> "op-valid", op_extra_field |-> "tolerated", op_dup |-> "op-valid", second_create |-> "op-valid",
+    odd_label_dup_removed |-> "tolerated", odd_label_dup |-> "tolerated", odd_label_remove_absent |-> "tolerated", odd_label_add_remove |-> "tolerated",
+    odd_many_labels |-> "tolerated", odd_status_same |-> "tolerated", odd_title_same |-> "tolerated", odd_edit_non_comment |-> "tolerated",
+    odd_edit_unknown |-> "tolerated", odd_meta_unknown |-> "tolerated", odd_comment_huge |-> "tolerated", odd_time_before_create |-> "tolerated",
+    odd_time_negative |-> "tolerated",
     merge_with_ops |-> "dag", second_root |-> "dag", clock_back |-> "dag", clock_jump |-> "dag",
     ref_other_id |-> "ref", ref_bad_name |-> "ref", empty_history |-> "op-list" ]
 
